@@ -585,6 +585,9 @@ func (n *nodeInfo) AddOrUpdateNodeMetric(metric *slov1alpha1.NodeMetric, p *podA
 	n.reportInterval = getNodeMetricReportInterval(metric)
 	if metric.Status.UpdateTime != nil {
 		n.updateTime = metric.Status.UpdateTime.Time
+	} else {
+		// a report without update time must not be judged against the previous report's time
+		n.updateTime = time.Time{}
 	}
 	n.podUsages, n.prodPods = podUsages, prodPods
 	n.nodeUsage = nodeUsage
